@@ -43,6 +43,7 @@ func (k *c03) RunCase(c *core.Ctx, i int) {
 	r := c.Rng(i, "journal")
 	o := gen.DefaultOpts(r)
 	o.Prices = true
+	o.PriceGraph = r.Intn(3) == 0 // cycles: only directly declared commodities are judged then
 	o.Small = true
 	o.Commodities = 2 + r.Intn(4)
 	o.Lifecycle = r.Intn(3) == 0
@@ -84,10 +85,6 @@ func (k *c03) RunCase(c *core.Ctx, i int) {
 			continue
 		}
 		pb := ref.NewPriceBook(j, v)
-		if !pb.Forest {
-			c.NotJudged(1)
-			continue
-		}
 		periods := cal.Partition(start, end, f.Interval, f.Last)
 		res := knut(c, dir, nil, args...)
 		if res.Class != "ok" {
@@ -96,8 +93,9 @@ func (k *c03) RunCase(c *core.Ctx, i int) {
 				Files: map[string][]byte{"j.knut": []byte(text)}, Cmd: knutCmd(c, nil, args...)})
 			return
 		}
-		exp, moved := c03Expected(j, posts, pb, v, start, periods, f.Diff, showAll)
-		why := c03Compare(string(res.Stdout), exp, periods, showAll)
+		exp, moved, skip := c03Expected(j, posts, pb, v, start, periods, f.Diff, showAll)
+		c.Count("rows_not_judged_ambiguous_price_chain", len(skip))
+		why := c03Compare(string(res.Stdout), exp, skip, periods, showAll)
 		if why != "" {
 			c.Violation(core.Witness{Case: i, Key: "valued-cell", Why: why,
 				Files: map[string][]byte{"j.knut": []byte(text)}, Cmd: knutCmd(c, nil, args...),
@@ -119,9 +117,29 @@ type c03Key struct{ acc, com string }
 
 // c03Expected computes, per (row account, commodity or "" when aggregated), the
 // expected cells and budgets.
-func c03Expected(j *gen.Journal, posts []ref.Posting, pb *ref.PriceBook, v string, start cal.Day, periods []cal.Period, diff, showAll bool) (map[c03Key][]c03Row, int) {
+func c03Expected(j *gen.Journal, posts []ref.Posting, pb *ref.PriceBook, v string, start cal.Day, periods []cal.Period, diff, showAll bool) (map[c03Key][]c03Row, int, map[c03Key]bool) {
 	n := len(periods)
 	exp := map[c03Key][]c03Row{}
+	// rows whose value depends on a commodity that is reachable from V through
+	// more than one chain (and not declared directly) are not judged here (C12)
+	skip := map[c03Key]bool{}
+	ambiguous := func(com string) bool {
+		if com == v {
+			return false
+		}
+		for _, d := range pb.Days {
+			if d <= periods[n-1].End && pb.Ambiguous(d, com) {
+				return true
+			}
+		}
+		return false
+	}
+	skipRow := func(acc, com string) {
+		if !showAll {
+			com = ""
+		}
+		skip[c03Key{acc, com}] = true
+	}
 	get := func(acc, com string) []c03Row {
 		if !showAll {
 			com = ""
@@ -167,6 +185,11 @@ func c03Expected(j *gen.Journal, posts []ref.Posting, pb *ref.PriceBook, v strin
 	}
 	end := periods[n-1].End
 	for pos := range positions {
+		if ambiguous(pos.com) {
+			skipRow(pos.acc, pos.com)
+			skipRow(mirror(pos.acc), pos.com)
+			continue
+		}
 		// cumulative values per column, then diff if requested
 		cumVal := make([]*big.Rat, n)
 		cumBud := make([]*big.Rat, n)
@@ -260,6 +283,10 @@ func c03Expected(j *gen.Journal, posts []ref.Posting, pb *ref.PriceBook, v strin
 		if ref.IsAL(p.Account) || p.Date < start || p.Date > end {
 			continue
 		}
+		if ambiguous(p.Com) {
+			skipRow(p.Account, p.Com)
+			continue
+		}
 		col := -1
 		for ci, per := range periods {
 			if p.Date <= per.End {
@@ -290,10 +317,10 @@ func c03Expected(j *gen.Journal, posts []ref.Posting, pb *ref.PriceBook, v strin
 			addCell(rows, ci, val, bud)
 		}
 	}
-	return exp, movedCount
+	return exp, movedCount, skip
 }
 
-func c03Compare(textOut string, exp map[c03Key][]c03Row, periods []cal.Period, showAll bool) string {
+func c03Compare(textOut string, exp map[c03Key][]c03Row, skip map[c03Key]bool, periods []cal.Period, showAll bool) string {
 	b, err := tab.ParseBalanceText(textOut)
 	if err != nil {
 		return "unreadable report: " + err.Error()
@@ -336,6 +363,9 @@ func c03Compare(textOut string, exp map[c03Key][]c03Row, periods []cal.Period, s
 		obs[k] = vals
 	}
 	for k, rows := range exp {
+		if skip[k] {
+			continue
+		}
 		got := obs[k]
 		for ci, want := range rows {
 			g := new(big.Rat)
@@ -351,7 +381,7 @@ func c03Compare(textOut string, exp map[c03Key][]c03Row, periods []cal.Period, s
 	}
 	small := big.NewRat(1, 1000000)
 	for k, got := range obs {
-		if _, ok := exp[k]; ok {
+		if _, ok := exp[k]; ok || skip[k] {
 			continue
 		}
 		for ci, g := range got {
